@@ -62,6 +62,7 @@ ZeroValue(T) ==
 (* length placeholder in bytes, 0 if none), why (reason of a refusal).     *)
 (***************************************************************************)
 KScalar == 1  KListCount == 2  KListElem == 3  KStrPrefix == 4  KObjCount == 5  KLen == 6  KCsum == 7
+KFixedMark == 1     \* a byte of a fixed-width text field (not an integer slot: integer slots are >= 17)
 IntMask(k, w) == IF w < 2 THEN Rep(0, w) ELSE [i \in 1..w |-> k * 16 + (w + 1 - i)]
 
 Out(b, m) == [ok |-> TRUE, bytes |-> b, mask |-> m]
@@ -69,7 +70,7 @@ NoOut == [ok |-> FALSE, bytes |-> <<>>, mask |-> <<>>]
 
 EncElem(E, e, x) ==
   CASE e.kind = "int"   -> Out(Ord(E, x), IntMask(KListElem, Len(x)))
-    [] e.kind = "fixed" -> Out(PadFixed(x, e.n, e.pad, e.left), Rep(0, e.n))
+    [] e.kind = "fixed" -> Out(PadFixed(x, e.n, e.pad, e.left), Rep(KFixedMark, e.n))
     [] e.kind = "str"   -> IF Fits(Len(x), e.pw)
                            THEN Out(Ord(E, Digits(Len(x), e.pw)) \o x, IntMask(KStrPrefix, e.pw) \o Rep(0, Len(x)))
                            ELSE NoOut
@@ -96,7 +97,7 @@ App(acc, b, m) == [acc EXCEPT !.bytes = @ \o b, !.mask = @ \o m]
 EncStep(T, E, acc, f) ==
   LET x == acc.val[f.name] IN
   CASE f.kind = "int" -> App(acc, Ord(E, x), IntMask(KScalar, Len(x)))
-    [] f.kind = "fixed" -> App(acc, PadFixed(x, f.n, f.pad, f.left), Rep(0, f.n))
+    [] f.kind = "fixed" -> App(acc, PadFixed(x, f.n, f.pad, f.left), Rep(KFixedMark, f.n))
     [] f.kind = "str" ->
          IF Fits(Len(x), f.pw) THEN App(acc, Ord(E, Digits(Len(x), f.pw)) \o x, IntMask(KStrPrefix, f.pw) \o Rep(0, Len(x)))
          ELSE Fail(acc, "prefix-overflow")
@@ -168,13 +169,19 @@ EncObjs(T, xs, i) == EncObjRange(T, xs, i, Len(xs))
 SlotStarts(m) == {i \in 1..Len(m) : m[i] % 16 >= 2 /\ (i = 1 \/ m[i - 1] % 16 <= 1)}
 SlotW(m, i) == m[i] % 16
 SlotKind(m, i) == m[i] \div 16
-InSlot(m, i) == m[i] # 0
+InSlot(m, i) == m[i] >= 16
 OnlyByteOrderDiffers(a, b, m) ==
   /\ Len(a) = Len(b) /\ Len(a) = Len(m)
   /\ \A i \in 1..Len(a) : ~InSlot(m, i) => a[i] = b[i]
   /\ \A i \in SlotStarts(m) : LET w == SlotW(m, i) IN
         \/ \A j \in 0..(w - 1) : a[i + j] = b[i + j]
         \/ \A j \in 0..(w - 1) : a[i + j] = b[i + w - 1 - j]
+(* C13 at message level: do a and b differ, and only inside fixed-width text fields (and, as a   *)
+(* consequence, in a frame checksum computed over them)?                                          *)
+OnlyFixedTextDiffers(a, b, m) ==
+  /\ Len(a) = Len(b) /\ Len(a) = Len(m) /\ a # b
+  /\ \A i \in 1..Len(a) : (m[i] # KFixedMark /\ m[i] \div 16 # KCsum) => a[i] = b[i]
+  /\ \E i \in 1..Len(a) : m[i] = KFixedMark /\ a[i] # b[i]
 ReversedKinds(a, b, m) ==
   {SlotKind(m, i) : i \in {s \in SlotStarts(m) : \E j \in 0..(SlotW(m, s) - 1) : a[s + j] # b[s + j]}}
 
